@@ -375,7 +375,8 @@ def lr_groups(seed, n, gi0=1, pure=False):
 
 # ---- C07: shapes around rule references ---------------------------------------------------------
 C07_SHAPES = ["X", "eX", "e?X", "(eX)*a", "&Xe", "!Xe", "X/e", "e/X", "l:X", "X{}", "&{t}X", "#{}X", "''X", "[^]X", "[]X",
-              "(eX)?a", "X+", "&{f}X", "aX", "X//e", "e//X", "(e/'')X", "&(eX)a", "l:(e?)X{}", "!{f}X", "e/(e?e?)X", "e/(''/a?)X", "(&a/(e? ''))X", "e+X", "(e?)+X", "(e*)*X"]
+              "(eX)?a", "X+", "&{f}X", "aX", "X//e", "e//X", "(e/'')X", "&(eX)a", "l:(e?)X{}", "!{f}X", "e/(e?e?)X", "e/(''/a?)X", "(&a/(e? ''))X", "e+X", "(e?)+X", "(e*)*X",
+              "e//e?X", "X//a?X"]
 C07_E = ["a", "a?", "''", "[ab]", "a*", "&a", "!a"]
 
 
@@ -442,6 +443,10 @@ def c07_body(g, shape, x, e):
         return g.recover(X(), E(), ["la"])
     if s == "e//X":
         return g.recover(g.seq([E(), g.throw("la")]), X(), ["la"])
+    if s == "e//e?X":        # the recursion starts inside the recovery expression, behind a nullable item (repaired defect F29)
+        return g.recover(g.seq([E(), g.throw("la")]), g.seq([g.seq([g.un("opt", a()), g.lit([])]), X()]), ["la"])
+    if s == "X//a?X":
+        return g.recover(g.seq([E(), g.throw("la")]), g.choice([g.seq([a(), a()]), g.seq([g.choice([g.lit([]), g.un("star", a())]), X()])]), ["la"])
     if s == "(e/'')X":
         return g.seq([g.choice([E(), g.lit([])]), X()])
     if s == "&(eX)a":
